@@ -706,6 +706,23 @@ def _run(ctx):
                 sf = P.fn(raw_[4][2][2])
                 sbody = sf.body
                 sstored = P_(sf, 1)
+        if sf is ph and not any(st["k"] == "assign" and st["place"]["p"] and st["place"]["p"][-1].get("name") == "asset_decimals"
+                                for blk in pbody.blocks if not blk["cleanup"] for st in blk["stmts"]):
+            # the decision may live in a record transform called once by the handler
+            # (`&with_native_token_decimals(pair_info_raw, &denom, asset_decimals)`): its parameters are the handler's values
+            for b_, p_, fr_, t_ in P.calls(ph):
+                h_ = (P.fn(p_) or P.fn(generic_path(p_))) if roles.is_workspace_fn(P, p_) else None
+                if h_ is None or h_.path == ph.path or common.single_call_site(P, h_) is None or common.single_call_site(P, h_)[0].path != ph.path:
+                    continue
+                if any(st["k"] == "assign" and st["place"]["p"] and st["place"]["p"][-1].get("name") == "asset_decimals"
+                       for blk in h_.body.blocks if not blk["cleanup"] for st in blk["stmts"]):
+                    cv_ = P.val_call(ph, pbody, b_)
+                    if not hasattr(P, "_param_overrides"):
+                        P._param_overrides = {}
+                    P._param_overrides[h_.path] = tuple(cv_[4])
+                    common.OVERRIDDEN[h_.path] = (P, tuple(cv_[4]))
+                    sf, sbody = h_, h_.body
+                    break
         # where is the assignment of the new array, and under which conditions
         assigns = []
         for b, blk in enumerate(sbody.blocks):
